@@ -226,6 +226,14 @@ func (m *Manager) authenticateHTTP(req *Request, token string) (string, error) {
 	httpClient := &http.Client{
 		Timeout:   m.ReadTimeout,
 		Transport: tr,
+		// 301, 302 and 303 redirects turn the POST into a body-less GET.
+		// The reply to that GET says nothing about the credentials, do not follow it.
+		CheckRedirect: func(r *http.Request, _ []*http.Request) error {
+			if r.Method != http.MethodPost {
+				return http.ErrUseLastResponse
+			}
+			return nil
+		},
 	}
 
 	res, err := httpClient.Post(m.HTTPAddress, "application/json", bytes.NewReader(enc))
